@@ -10,7 +10,7 @@ Spec: spec/Equiv.tla (+ MC_C09, Trace_C09).
   3. every history is replayed in real unyt (impl_c09); observed floats are snapped to the
      specification's symbolic values (library's own constants) at the coarser of the input's and
      the result's precision.
-  4. Trace_C09: TLC evaluates P (Pure, Gate, Total, Formula, Width, Unit, Twin, Inv/Path) on the
+  4. Trace_C09: TLC evaluates P (Pure, Gate, Total, Formula, Width, Unit, Twin, TwinUnit, Inv/Path) on the
      observed steps and compares them with the transition (T).
 Independent TLC runs and trace-validation chunks run concurrently (threads around ck.tlc).
 """
@@ -105,6 +105,8 @@ def run(ck):
         "66 unit spellings (SI, prefixed, CGS, compound, other, registry-valued, code units, and the offset temperature scales degC/degF) of 13 dimensions; a reading y on an offset scale means (y + off) * scale with the exact offsets of Equiv!Offsets (273.15, 459.67); number claims about a result on an offset scale are made where |absolute value / scale| >= |off| / 1024 (8-byte floats) or |off| / 4 (narrower floats, matched at 4x the type's precision), objects written in degC/degF are float64 and hold numbers >= 1 K; a covered request on an INPUT in degC/degF is not required to return (the library refuses arithmetic on such readings), but what it returns must be the formula's value; 13 dtypes (int8..int64, uint8..uint64, float16/32/64, complex64/128; all but float64 only in coherent SI units with values the dtype holds exactly or to its precision; complex data has zero imaginary part); shapes quantity / array / contiguous view / strided view (views of float and complex buffers only)",
         "registry dimension: the default registry, or one custom registry (Msun=2e30 kg, AU=1.5e11 m, eV=1.6e-19 J, me=9e-31 kg, pc=3e16 m; code_length, code_mass, code_time, code_temperature) for float64 quantities/arrays; the value of a spelling is the base_value the library gives it in the registry the history's object was created in; a Unit object of the default registry is passed only for spellings that mean the same in both registries",
         "keyword settings: defaults (mu=0.6, gamma=5/3 as documented), mu=3/4, gamma=4/3, mu=gamma=7/5; keywords are only passed to equivalences that take them",
+        "special values: exact zero and +infinity are values of the specification (a monomial K x^p maps them to themselves for p > 0, to each other for p < 0); objects hold an exact zero only as float64/int64/uint64 (quantity: 0; array: 0 next to 16e8), +inf only as the result of an earlier step; an observed +inf is matched to the specification's Inf only when that value is among the step's candidates; negative numbers and nan are not in the grid",
+        "the unit of a result is projected to its text (str) and to the registry it belongs to (the one the history's object was created in / the default one / another); TwinUnit compares these between the in-place form and an earlier copying form of the same request on the same object",
         "known findings are matched on (clause, equivalence, from, to, form, dtype, result dtype, numbers of the input)",
     ]
     stats = {"steps": 0, "ok": 0, "raise": 0, "rdt": {}}
@@ -121,11 +123,11 @@ def run(ck):
     nthreads = max(2, min(8, common.NCPU // 2 + 1))
     rnd = random.Random(ck.seed)
     nu = ck.q(3, 6)
-    diag = ck.q(8, 3)  # float64/int64 part
+    diag = ck.q(10, 3)  # float64/int64 part (round 7: 8 -> 10 pays for the zero pair and the twin prefixes)
     # the other dtypes: with 3 target spellings per dimension a diagonal of 3 keeps every (equivalence, from, to, dtype,
     # shape, entry point) combination, each with one of the target spellings
     diag2 = ck.q(3, 2)
-    diag3 = ck.q(8, 2)  # objects of the custom registry x {string, Unit of the input's registry, Unit of the default registry}
+    diag3 = ck.q(10, 2)  # (round 7: 8 -> 10) objects of the custom registry x {string, Unit of the input's registry, Unit of the default registry}
     ml = ck.q(2, 3)
     depth = ck.q(4, 6)
     cfg_hist = _cfg(ck, "MC_C09_hist", "MC_C09_hist_run", MaxLen=ml, ExportLen=ml, Diag=ck.q(3, 2))
